@@ -45,8 +45,9 @@ type c12Row struct {
 	flag bool
 	g    bool
 	d    string // RFC 3339, "" with dNull
+	fv   float64 // a float64-typed field (round 8): comparisons over it are typed BinaryFloat64ExprNode
 
-	nNull, sNull, flagNull, gNull, dNull bool
+	nNull, sNull, flagNull, gNull, dNull, fvNull bool
 	tags                                 []string
 	kids                                 []c12Kid
 }
@@ -57,23 +58,23 @@ const (
 )
 
 var c12Rows = []c12Row{
-	{n: 1, s: "x", flag: true, g: false, d: "2032-09-03T15:36:50Z", tags: []string{"a"}, kids: []c12Kid{{1, "p"}, {2, "q"}}},
-	{n: 3, s: "xy", flag: false, g: true, d: "2031-01-01T00:00:00Z", tags: []string{"a", "b"}, kids: []c12Kid{{2, "p"}, {3, "p"}}},
-	{n: 4, s: "", flag: true, g: true, d: "2033-06-30T23:59:59Z"},
-	{n: 7, s: "a and b", flag: false, g: false, d: "2032-09-03T15:36:51Z", tags: []string{"b"}, kids: []c12Kid{{0, "q"}}},
-	{n: 2, s: "y", flag: true, g: false, d: "2032-09-03T15:36:49Z", tags: []string{"c", "a"}, kids: []c12Kid{{5, "r"}}},
-	{n: 3, s: "X", flag: true, g: true, d: "2034-01-02T03:04:05Z"},
-	{n: 5, s: "(x)", flag: false, g: true, d: "2035-12-31T00:00:00Z", tags: []string{"b", "c"}, kids: []c12Kid{{1, "p"}}},
-	{n: 0, s: "or", flag: false, g: false, d: "2032-09-03T15:36:50Z"},
+	{n: 1, s: "x", flag: true, g: false, d: "2032-09-03T15:36:50Z", fv: 2.5, tags: []string{"a"}, kids: []c12Kid{{1, "p"}, {2, "q"}}},
+	{n: 3, s: "xy", flag: false, g: true, d: "2031-01-01T00:00:00Z", fv: 3, tags: []string{"a", "b"}, kids: []c12Kid{{2, "p"}, {3, "p"}}},
+	{n: 4, s: "", flag: true, g: true, d: "2033-06-30T23:59:59Z", fv: 1.5},
+	{n: 7, s: "a and b", flag: false, g: false, d: "2032-09-03T15:36:51Z", fv: 4.25, tags: []string{"b"}, kids: []c12Kid{{0, "q"}}},
+	{n: 2, s: "y", flag: true, g: false, d: "2032-09-03T15:36:49Z", fv: 0.5, tags: []string{"c", "a"}, kids: []c12Kid{{5, "r"}}},
+	{n: 3, s: "X", flag: true, g: true, d: "2034-01-02T03:04:05Z", fv: 2.75},
+	{n: 5, s: "(x)", flag: false, g: true, d: "2035-12-31T00:00:00Z", fv: 4, tags: []string{"b", "c"}, kids: []c12Kid{{1, "p"}}},
+	{n: 0, s: "or", flag: false, g: false, d: "2032-09-03T15:36:50Z", fv: 1},
 	// rows on which fields are NULL / absent: an atom over such a field is neither "present and
 	// true" nor "present and false" - a comparison with a null operand is false (`!=`: true), and so
 	// is its complementary comparison; `not (P)` must still negate whatever P evaluates to
-	{nNull: true, s: "x", flag: true, g: false, d: "2030-05-05T05:05:05Z", tags: []string{"a"}},
-	{n: 3, sNull: true, flag: false, g: true, dNull: true, kids: []c12Kid{{2, "q"}, {4, "p"}}},
-	{nNull: true, sNull: true, flagNull: true, gNull: true, dNull: true},
-	{n: 1, s: "y", flagNull: true, g: true, d: "2034-01-02T03:04:04Z", tags: []string{"b"}},
-	{n: 5, s: "xy", flag: true, gNull: true, dNull: true},
-	{nNull: true, sNull: true, flag: false, g: true, d: "2040-01-01T00:00:00Z", tags: []string{"a", "b", "c"}, kids: []c12Kid{{2, "p"}}},
+	{nNull: true, s: "x", flag: true, g: false, d: "2030-05-05T05:05:05Z", fv: 3.5, tags: []string{"a"}},
+	{n: 3, sNull: true, flag: false, g: true, dNull: true, fvNull: true, kids: []c12Kid{{2, "q"}, {4, "p"}}},
+	{nNull: true, sNull: true, flagNull: true, gNull: true, dNull: true, fvNull: true},
+	{n: 1, s: "y", flagNull: true, g: true, d: "2034-01-02T03:04:04Z", fv: 2.5, tags: []string{"b"}},
+	{n: 5, s: "xy", flag: true, gNull: true, dNull: true, fv: 1.5},
+	{nNull: true, sNull: true, flag: false, g: true, d: "2040-01-01T00:00:00Z", fv: 5, tags: []string{"a", "b", "c"}, kids: []c12Kid{{2, "p"}}},
 }
 
 type c12Atom struct {
@@ -198,6 +199,19 @@ var c12Atoms = map[byte]c12Atom{
 	'N': {tm("n", "~~", "!=", "~~", "kw:null"), func(r c12Row) bool { return !r.nNull }},
 	'O': {tm("kw:anyOf", "(", "~", "tags", "~", ")", "+", "kw:in", "+", "[", "~", `"c"`, "~", ",", "~~", `"b"`, "~", "]"),
 		func(r c12Row) bool { return c12Has(r.tags, "c") || c12Has(r.tags, "b") }},
+	// round 8: comparisons the typing stage evaluates as float64 - a float symbol against any number, an int
+	// symbol against a literal with a decimal point (Int64ToFloat64Node); the typed node BinaryFloat64ExprNode
+	// is a BoolNode whose GetType() says NodeTypeFloat64; float between / in / not between next to it
+	'P': {tm("fv", "~~", ">", "~~", "2.5"), func(r c12Row) bool { return !r.fvNull && r.fv > 2.5 }},
+	'Q': {tm("fv", "~~", "<=", "~~", "3"), func(r c12Row) bool { return !r.fvNull && r.fv <= 3 }},
+	'R': {tm("n", "~~", "=", "~~", "3.0"), func(r c12Row) bool { return !r.nNull && r.n == 3 }},
+	'S': {tm("n", "~~", "<", "~~", "2.5"), func(r c12Row) bool { return !r.nNull && float64(r.n) < 2.5 }},
+	'U': {tm("fv", "~~", "!=", "~~", "1.5"), func(r c12Row) bool { return r.fvNull || r.fv != 1.5 }},
+	'V': {tm("fv", "+", "kw:between", "+", "1.5", "+", "kw:and", "+", "4"), func(r c12Row) bool { return !r.fvNull && r.fv >= 1.5 && r.fv < 4 }},
+	'W': {tm("fv", "+", "kw:in", "+", "[", "~", "1.5", "~", ",", "~~", "4.25", "~", "]"), func(r c12Row) bool { return !r.fvNull && (r.fv == 1.5 || r.fv == 4.25) }},
+	'X': {tm("fv", "+", "kw:not", "+", "kw:between", "+", "0.5", "+", "kw:and", "+", "2.5"), func(r c12Row) bool { return r.fvNull || !(r.fv >= 0.5 && r.fv < 2.5) }},
+	'Y': {tm("n", "~~", ">=", "~~", "1.5"), func(r c12Row) bool { return !r.nNull && float64(r.n) >= 1.5 }},
+	'Z': {tm("fv", "~~", "=", "~~", "4.0"), func(r c12Row) bool { return !r.fvNull && r.fv == 4 }},
 }
 
 const c12AtomVariants = 26
@@ -287,6 +301,7 @@ func c12RowSymbols(r c12Row) *memSymbols {
 	syms.types["n"] = ast.NodeTypeInt64
 	syms.types["s"] = ast.NodeTypeString
 	syms.types["d"] = ast.NodeTypeDatetime
+	syms.types["fv"] = ast.NodeTypeFloat64
 	syms.types["tags"] = ast.NodeTypeString
 	syms.sets["tags"] = true
 	syms.setVals["tags"] = r.tags
@@ -310,6 +325,9 @@ func c12RowSymbols(r c12Row) *memSymbols {
 	}
 	if !r.dNull {
 		syms.scalars["d"] = c12Time(r.d)
+	}
+	if !r.fvNull {
+		syms.scalars["fv"] = r.fv
 	}
 	return syms
 }
